@@ -190,7 +190,9 @@ def op_optimize(w, s):
     outs = s["out"] if isinstance(s["out"], list) else [s["out"]]
     cap = sector_bond_cap(model, qntot, "mps")
     mmax = min(int(m) for m, p in s["procedure"][-2:])
-    full = all(mmax >= c for c in cap)
+    # equality with exact diagonalisation needs the WHOLE schedule at full rank: an earlier sweep with a smaller limit truncates the
+    # guess, and later sweeps without perturbation cannot bring back charge sectors that were dropped from the bond labels
+    full = all(min(int(m) for m, p in s["procedure"]) >= c for c in cap)
     converged = len(energies) >= 2 and s["procedure"][-1][1] == 0 and s["procedure"][-2][1] == 0 and not s.get("max_cycle") and not s.get("fail_svd")
     for k, (st, h_out) in enumerate(zip(states, outs)):
         got = dense.dense_of(st)
